@@ -7,7 +7,8 @@ import itertools
 from mc import pool, wire, refms
 
 CHARS = ["a", '"', "\\", "\r", "\n", "\x00", "{", "}", "5", "+", "é", " ", "\ufeff"]
-SPECIAL = ["", "{5}", "{5+}", "{5+}x", "{0+}", "{1+}\r\nx", "a" * 1025, 'a"\r\nLOGOUT', "a\r\nLOGOUT\r\n", "€\U0001F600", "{3}", "{3+}\r\nabc"]
+SPECIAL = ["", "{5}", "{5+}", "{5+}x", "{0+}", "{1+}\r\nx", "a" * 1025, 'a"\r\nLOGOUT', "a\r\nLOGOUT\r\n", "€\U0001F600", "{3}", "{3+}\r\nabc",
+           "caf\udce9", "\ud800x", "a" * 1024, "é" * 512, "é" * 513]  # lone surrogates cannot be encoded: must be refused before writing
 SIZES = [0, 1, 10, 2 ** 32 - 1, 2 ** 32, -1]
 
 VERB = {"havespace": "HAVESPACE", "getscript": "GETSCRIPT", "putscript": "PUTSCRIPT", "checkscript": "CHECKSCRIPT",
@@ -52,17 +53,32 @@ def classify_value(v):
         cl.append("nul")
     if v.startswith("{") and "}" in v:
         cl.append("literal-lookalike")
-    if len(v.encode("utf-8")) > 1024:
+    if len(v.encode("utf-8", "replace")) > 1024:
         cl.append("long")
+    if any(0xD800 <= ord(c) <= 0xDFFF for c in v):
+        cl.append("surrogate")
     if any(ord(c) > 127 for c in v):
         cl.append("non-ascii")
     return "+".join(cl) or "plain"
 
 
+def _encodable(expected):
+    for e in expected:
+        if isinstance(e, int):
+            if not 0 <= e < 2 ** 32:
+                return False
+        else:
+            try:
+                e.encode("utf-8")
+            except UnicodeEncodeError:
+                return False
+    return True
+
+
 def judge(op, expected, data, o):
     """-> None | (symptom, text)"""
-    if o.kind == "exc" and o.exc_type == "Error" and not data:
-        return None  # refused before writing anything
+    if o.kind == "exc" and not data and (o.exc_type == "Error" or not _encodable(expected)):
+        return None  # refused before writing anything (for values that cannot be encoded any refusal will do)
     if o.kind in ("livelock", "hang"):
         return ("no-return", "call does not return")
     cmds, left, err = refms.parse_all(data)
